@@ -41,7 +41,12 @@ for ID in "$@"; do
     ( cd "$HC" && CARGO_TARGET_DIR="$TGT" cargo build --release -p "pvc-$GROUP" >"$OUT/build.log" 2>&1 ) || { echo "MUTANT $ID: BUILD FAILED"; tail -20 "$OUT/build.log"; RC=3; continue; }
     BIN="$TGT/release/pvc-$GROUP"
   fi
-  VERIF_ROOT="$OUT" VERIF_EVIDENCE_PART="$GROUP" "$BIN" "$ID" --tier "$TIER" >"$OUT/$ID.out" 2>"$OUT/$ID.err"
+  if [ "$ID" = "C17" ] && [ "$GROUP" != "hal" ]; then
+    SUB=C12; [ "$GROUP" = "ser" ] && SUB=C18
+    VERIF_AS_PROPERTY=C17 VERIF_FAIL_KINDS="scratch_overrun,stray_write" VERIF_ROOT="$OUT" VERIF_EVIDENCE_PART="$GROUP" "$BIN" "$SUB" --tier "$TIER" >"$OUT/$ID.out" 2>"$OUT/$ID.err"
+  else
+    VERIF_ROOT="$OUT" VERIF_EVIDENCE_PART="$GROUP" "$BIN" "$ID" --tier "$TIER" >"$OUT/$ID.out" 2>"$OUT/$ID.err"
+  fi
   E=$?
   V=$(grep -c '^VIOLATION' "$OUT/$ID.out")
   echo "MUTANT $ID/$GROUP: exit=$E violations=$V $(grep -m1 -E '^(OK|VIOLATION)' "$OUT/$ID.out")"
